@@ -29,7 +29,7 @@ languages echo it.  For expressions whose Hy and Python texts differ, the
 echoed text differs in the same way; `expected_from_python` substitutes it.
 """
 
-CHUNKS = ["a", "{{", "}}", "\\N{OX}", "\\n", "'", "\\\"", "]"]
+CHUNKS = ["a", "{{", "}}", "\\N{OX}", "\\n", "'", "\\\"", "]", "\\\\N", "\\\\"]
 #          0     1     2      3         4     5     6      7
 # "]" is interesting only inside a bracket f-string; "\N{OX}" is an escape in
 # mode q and (being raw) backslash-N followed by a field `OX` in mode b.
@@ -168,7 +168,8 @@ def features(parts, mode):
     for p in parts:
         if p[0] == "L":
             f.add({0: "chunk", 1: "chunk-lbrace2", 2: "chunk-rbrace2", 3: "chunk-named-escape", 4: "chunk-escape",
-                   5: "chunk-squote", 6: "chunk-escaped-dquote", 7: "chunk-rbracket"}[p[1]])
+                   5: "chunk-squote", 6: "chunk-escaped-dquote", 7: "chunk-rbracket",
+                   8: "chunk-escaped-backslash-N", 9: "chunk-escaped-backslash"}[p[1]])
         elif p[0] == "F":
             f.add("expr-" + ["symbol", "call", "string", "nested-fstring", "do-setv", "list"][p[1]])
             if p[2]:
